@@ -1,20 +1,27 @@
 #!/bin/bash
-# Re-validate every kept seeded change against the current checks: each must make the quick check of its property
-# exit 1.  Uses a scratch worktree under /tmp (never patches /repo); writes seeded/STATUS.md
-OUT=/verif/seeded/STATUS.md
-echo "| seeded change | property | patch applies | quick check exit | violation keys (first 3) |" > $OUT.tmp
-echo "|---|---|---|---|---|" >> $OUT.tmp
+# Re-validate kept seeded changes against the current checks: each must make the quick check of its property (or of
+# meta.check_with) exit 1.  Uses a scratch worktree under /tmp (never patches /repo).
+# usage: tools/reseed.sh [name-prefix ...]   (no argument: all; results accumulate in out/reseed-rows, then seeded/STATUS.md is rebuilt)
+ROWS=/verif/out/reseed-rows; mkdir -p $ROWS
+WT=/tmp/wt-reseed
 for d in /verif/seeded/*/; do
   name=$(basename $d)
+  if [ $# -gt 0 ]; then
+    hit=0; for pre in "$@"; do case $name in $pre*) hit=1;; esac; done
+    [ $hit = 1 ] || continue
+  fi
   prop=$(/venv/bin/python -c "import json;m=json.load(open('$d/meta.json'));print(m.get('check_with', m['breaks_property']))")
-  WT=/tmp/wt-reseed
   git -C /repo worktree remove --force $WT 2>/dev/null
   git -C /repo worktree add -q --detach $WT HEAD
   if git -C $WT apply $d/patch.diff 2>/dev/null; then ap=yes; else ap=NO; fi
   VERIF_MINIMISE=0 VERIF_REPO=$WT /venv/bin/python -B -m vmon.run $prop --tier quick > /tmp/reseed.log 2>&1; rc=$?
   keys=$(grep "  key=" /tmp/reseed.log | head -3 | sed 's/ witnesses.*//; s/  key=//' | tr '\n' ' ')
-  echo "| $name | $prop | $ap | $rc | $keys |" >> $OUT.tmp
+  echo "| $name | $prop | $ap | $rc | $keys |" > $ROWS/$name.row
   echo "$name $prop applies=$ap exit=$rc"
   git -C /repo worktree remove --force $WT
 done
-mv $OUT.tmp $OUT
+OUT=/verif/seeded/STATUS.md
+echo "| seeded change | check run | patch applies | quick check exit | violation keys (first 3) |" > $OUT
+echo "|---|---|---|---|---|" >> $OUT
+cat $ROWS/*.row >> $OUT
+echo "rows: $(ls $ROWS | wc -l)"
